@@ -3,7 +3,7 @@ import ast
 import re
 
 from . import tsrules
-from .common import (Ctx, call_name, dotted, is_name, kw, local_assignments, norm, own_calls,
+from .common import (alias_dotted, Ctx, call_name, dotted, is_name, kw, local_assignments, norm, own_calls,
                      params)
 
 P = 'C12'
@@ -35,11 +35,12 @@ def terms(expr, fnode, depth=0, cut=None):
         return ['?deep']
     if isinstance(expr, ast.BinOp) and isinstance(expr.op, ast.Add):
         return terms(expr.left, fnode, depth, cut) + terms(expr.right, fnode, depth, cut)
+    from .common import alias_dotted
     if isinstance(expr, ast.Call) and dotted(expr.func) == 'len' and len(expr.args) == 1 and \
             dotted(expr.args[0]):
-        return ['len(%s)' % dotted(expr.args[0])]
+        return ['len(%s)' % alias_dotted(fnode, expr.args[0])]
     if isinstance(expr, ast.Attribute) and dotted(expr):
-        return [dotted(expr)]
+        return [alias_dotted(fnode, expr)]
     if isinstance(expr, ast.Name):
         out = []
         found = False
@@ -190,7 +191,7 @@ def r2_lists(ctx, rep, R='C12.R2'):
     n = 0
     for meth, acc in (('tests_with_errors', 'errors'), ('tests_with_failures', 'failures')):
         cs = [c for c in own_calls(fi.node) if isinstance(c.func, ast.Attribute) and c.func.attr == meth]
-        ok = len(cs) == 1 and len(cs[0].args) == 1 and dotted(cs[0].args[0]) == 'self.runner.' + acc
+        ok = len(cs) == 1 and len(cs[0].args) == 1 and alias_dotted(fi.node, cs[0].args[0]) == 'self.runner.' + acc
         n += len(cs)
         rep.check(ok, R, 'Filter.report: output.%s(self.runner.%s)' % (meth, acc),
                   '%s is given %s' % (meth, [norm(c.args[0]) for c in cs if c.args]),
